@@ -7,6 +7,7 @@ import Orda.Proofs.Protocol
 import Orda.Model.Wired
 import Orda.Proofs.ProtocolJoin
 import Orda.Proofs.ProtoNet
+import Orda.Proofs.ServerRefine
 namespace Orda.Props.C07
 open Orda
 
@@ -137,5 +138,15 @@ theorem any_response_can_be_applied_at_any_time (typ : DtType) (cuids : List Str
     (p : PResp) (cl : RClient) (hp : p ∈ S.resps) (hc : S.clients[p.i]? = some cl) :
     ExecOK cl.r (newForeignOps cl.cuid cl.cp p.cp p.ops) :=
   faults_deliveries_exact h hp hc
+
+open Orda.SRef in
+/-- at the STORE level: whatever was lost, repeated or delayed before, a request that a client has ever sent (an old one, a retry, a
+    duplicate) is never answered with an error pack by `processPack` -/
+theorem store_server_never_refuses_a_retry {tg : Target} {cuids : List String} {T0 T : SSys}
+    (g0 : SRef.Good tg T0) (h0 : PReach cuids (T0.abs tg)) (run : SRun tg T0 T)
+    {r : PReq} {cl : PClient} {cd : ClientDoc} {p : Pack}
+    (hr : r ∈ T.reqs) (hi : T.clients[r.i]? = some cl) (hcu : cd.cuid = cl.cuid) (hv : cd.typ ≠ 2) (hp : PackOf tg r p) :
+    (processPack T.st cd tg.col p).resp.error = false :=
+  store_never_refuses g0 h0 run hr hi hcu hv hp
 
 end Orda.Props.C07
